@@ -14,6 +14,8 @@ func init() { register("C13", checkC13) }
 func checkC13(c *Ctx, r *Report, tier string) {
 	round5(c, r, "C13")
 	round6(c, r, "C13")
+	round7(c, r, "C13")
+	round8(c, r, "C13")
 	x := newIdxLocks(c)
 	r.Rule("C13.R1", "edge sets only under their lock: every map operation on v.edges[l] (and every replacement of that slot) has v.edgeMutexes[l] — same v, same l — must-held, the write lock for writes", 12)
 	r.Rule("C13.R2", "edge and shard locks are leaf locks: while one may be held, no call that can acquire a mutex and no channel operation (⇒ no lock-order cycle inside the index)", 6)
